@@ -34,13 +34,16 @@ ArgChoices == {{"Deprecated"}, {"BrokenDocLink"}, {"IncorrectDocComment"}, {"All
 \* which lint sites the files contain: all of them, or only the lints of one element (then their diagnostics are
 \* neighbours in the recorded list)
 Presents == {1..NSites, {1, 2}, {3, 4}, {5, 6}, {9, 10}}
-VARIABLES supp, present
+VARIABLES supp, present,
+          twin      \* FALSE: the twin file holds no lint at all (the lints of one element of the first file are then really
+                    \* neighbours in the recorded list, whatever phase reports them)
 AC == ArgChoices \cup {{}}
 Put(a, x, b, y, c, z) == [s \in Slots |-> IF s = a THEN x ELSE IF s = b THEN y ELSE IF s = c THEN z ELSE {}]
 Init == /\ supp \in {Put(a, x, b, y, c, z) : a \in Slots, b \in (IF MaxSupp >= 2 THEN Slots ELSE {"cli"}), c \in (IF MaxSupp >= 3 THEN Slots ELSE {"cli"}),
                                               x \in AC, y \in (IF MaxSupp >= 2 THEN AC ELSE {{}}), z \in (IF MaxSupp >= 3 THEN AC ELSE {{}})}
         /\ present \in Presents
-Next == UNCHANGED <<supp, present>>
+        /\ twin \in BOOLEAN
+Next == UNCHANGED <<supp, present, twin>>
 Names(args, k) == "All" \in args \/ k \in args
 At(s) == IF s \in Slots THEN supp[s] ELSE {}                      \* elements of the twin that carry no slot
 \* ---- reference: the statement
@@ -56,6 +59,6 @@ NonInterference == \A p, q \in AllSites : LET a == Site(p[1], p[2])  b == Site(q
 NoLeak == \A i \in 1..NSites : (\A s \in Slots \ {"cli", "file", "S", "X", "Y", "I", "OP", "P", "E", "EA", "EF"} : supp[s] = {})
                                   => (Silenced(Site(2, i)) <=> Names(supp["cli"], Sites1[i].k))
 SetToSeq(S) == CHOOSE q \in [1..Cardinality(S) -> S] : \A i, j \in 1..Cardinality(S) : i < j => q[i] # q[j]
-Emit == PrintT(<<"CASE", ToJson([many |-> TRUE, present |-> [i \in 1..NSites |-> i \in present], supp |-> [s \in {x \in Slots : supp[x] # {}} |-> SetToSeq(supp[s])],
+Emit == PrintT(<<"CASE", ToJson([many |-> TRUE, twin |-> twin, present |-> [i \in 1..NSites |-> i \in present], supp |-> [s \in {x \in Slots : supp[x] # {}} |-> SetToSeq(supp[s])],
                                  silenced |-> [f \in 1..2 |-> [i \in 1..NSites |-> Silenced(Site(f, i))]]])>>)
 ====================================================================================================
